@@ -108,9 +108,86 @@ func C10(c *core.Ctx) {
 			fromSrc := false
 			hasTrg := false
 			var srcRoot ssa.Value
+			// a field filled by an own helper that returns a struct literal built from its parameter
+			// (e.g. usar.VolumMeasure = newVolumeMeasure(r.VolMeasurement)): expand it field by field,
+			// composing the helper's parameter paths with the argument's path
+			type srcRef struct {
+				root  ssa.Value
+				names []string
+			}
+			composed := map[ssa.Value]srcRef{}
+			for path, vals := range as {
+				if len(vals) != 1 {
+					continue
+				}
+				cl, ok := vals[0].(*ssa.Call)
+				if !ok {
+					continue
+				}
+				sf := core.StaticFn(cl)
+				if sf == nil || sf.Blocks == nil || !p.IsOwnFn(sf) || cl.Call.IsInvoke() {
+					continue
+				}
+				var lit *ssa.Alloc
+				nRet := 0
+				core.Instrs(sf, func(in ssa.Instruction) {
+					if r, isR := in.(*ssa.Return); isR && len(r.Results) == 1 {
+						nRet++
+						if ld, isLd := r.Results[0].(*ssa.UnOp); isLd && ld.Op == token.MUL {
+							lit, _ = ld.X.(*ssa.Alloc)
+						}
+					}
+				})
+				if nRet != 1 || lit == nil {
+					continue
+				}
+				sub := map[string][]ssa.Value{}
+				structAssigns(lit, "", sub, 0)
+				okAll := len(sub) > 0
+				exp := map[string]ssa.Value{}
+				for sp, svs := range sub {
+					if len(svs) != 1 {
+						okAll = false
+						break
+					}
+					r2, n2 := core.FieldPath(svs[0])
+					if al, isAl := r2.(*ssa.Alloc); isAl { // a struct parameter spilled to a local
+						if sv, ok := aggregateSingleStore(al); ok {
+							r2 = sv
+						}
+					}
+					par, isPar := r2.(*ssa.Parameter)
+					if !isPar {
+						okAll = false
+						break
+					}
+					idx := -1
+					for i, pp := range sf.Params {
+						if pp == par {
+							idx = i
+						}
+					}
+					if idx < 0 || idx >= len(cl.Call.Args) {
+						okAll = false
+						break
+					}
+					ra, na := core.FieldPath(cl.Call.Args[idx])
+					composed[svs[0]] = srcRef{ra, append(append([]string{}, na...), n2...)}
+					exp[path+"."+sp] = svs[0]
+				}
+				if okAll {
+					delete(as, path)
+					for k, v := range exp {
+						as[k] = []ssa.Value{v}
+					}
+				}
+			}
 			for path, vals := range as {
 				for _, v := range vals {
 					root, names := core.FieldPath(v)
+					if cr, ok := composed[v]; ok {
+						root, names = cr.root, cr.names
+					}
 					if root != nil && len(names) > 0 && isPtrTo(root.Type(), srcT) {
 						fromSrc = true
 						if srcRoot == nil {
@@ -305,12 +382,8 @@ func C10(c *core.Ctx) {
 				present := false
 				if k := p.Const(core.PkgIE, owner); k != nil && recv != nil {
 					kv, _ := constant.Int64Val(constant.ToInt(k.Val()))
-					for _, ft := range core.FactsAt(st.Block()) {
-						cmp, isCmp := ft.V.(*ssa.BinOp)
-						if !isCmp || cmp.Op != token.EQL || !ft.True {
-							continue
-						}
-						if cv, isK := core.ConstInt(cmp.Y); isK && cv == kv && core.IsPath(cmp.X, recv, "Type") {
+					for _, eq := range eqFacts(st.Block()) {
+						if cv, isK := core.ConstInt(eq[1]); isK && cv == kv && core.IsPath(eq[0], recv, "Type") {
 							present = true
 						}
 					}
@@ -323,7 +396,7 @@ func C10(c *core.Ctx) {
 	}
 	urrids := p.Field(pkgPfcp, "Sess", "URRIDs")
 	for _, e := range emissionSites {
-		fn := p.SSAFn(p.Method(pkgPfcp, "PfcpServer", e.fn))
+		fn, _ := emissionFn(p, e.fn, e.ies)
 		if fn == nil {
 			continue
 		}
@@ -394,7 +467,7 @@ func C10(c *core.Ctx) {
 	independentIterations(c, "R5", append(handlerFns(p), p.SSAFn(p.Method(pkgBuff, "Server", "ServeMsg")), p.SSAFn(p.Method(pkgPerio, "Server", "Serve"))))
 	// R5 batch isolation
 	for _, e := range emissionSites {
-		fn := p.SSAFn(p.Method(pkgPfcp, "PfcpServer", e.fn))
+		fn, _ := emissionFn(p, e.fn, e.ies)
 		if fn == nil {
 			continue
 		}
@@ -554,7 +627,24 @@ func ieBuilderSummary(fn *ssa.Function) string {
 			return
 		}
 		var guards []string
-		for _, ft := range core.FactsAt(cl.Block()) {
+		facts := core.FactsAt(cl.Block())
+		// a guard that is an own predicate (`if r.needsTimeIEs()`) stands for what its `return a && b` implies
+		for _, ft := range append([]core.Fact{}, facts...) {
+			if g, ok := ft.V.(*ssa.Call); ok && ft.True && !g.Call.IsInvoke() {
+				if h := core.StaticFn(g); h != nil && h.Blocks != nil && core.FnPkg(h) != nil && strings.HasPrefix(core.FnPkg(h).Path(), core.ModPath) {
+					if imp, ok := core.TrueImplies(h); ok && len(imp) > 1 {
+						var rest []core.Fact
+						for _, f2 := range facts {
+							if f2.V != ft.V {
+								rest = append(rest, f2)
+							}
+						}
+						facts = append(rest, imp...)
+					}
+				}
+			}
+		}
+		for _, ft := range facts {
 			switch g := ft.V.(type) {
 			case *ssa.Call:
 				if gf := core.Callee(g); gf != nil {
@@ -608,6 +698,7 @@ type destTerm struct {
 
 func destTerminals(v ssa.Value) []destTerm {
 	seen := map[ssa.Value]bool{}
+	env := map[*ssa.Parameter]ssa.Value{}
 	var out []destTerm
 	var walk func(v ssa.Value, d int)
 	walk = func(v ssa.Value, d int) {
@@ -661,12 +752,39 @@ func destTerminals(v ssa.Value) []destTerm {
 					walk(a, d+1)
 				}
 			default:
+				// an own helper: its result is made of what its return values are made of, with the
+				// parameters standing for the arguments of this call (one level of by-need inlining)
+				if sf := core.StaticFn(x); sf != nil && sf.Blocks != nil && f != nil && f.Pkg() != nil && strings.HasPrefix(f.Pkg().Path(), core.ModPath) && d < 20 && !x.Call.IsInvoke() {
+					args := x.Call.Args
+					for i, par := range sf.Params {
+						if i < len(args) {
+							env[par] = args[i]
+						}
+					}
+					core.Instrs(sf, func(in ssa.Instruction) {
+						if r, isR := in.(*ssa.Return); isR {
+							for _, res := range r.Results {
+								if _, isErr := res.Type().Underlying().(*types.Interface); isErr && res.Type().String() == "error" {
+									continue
+								}
+								walk(res, d+1)
+							}
+						}
+					})
+					return
+				}
 				n := "?"
 				if f != nil {
 					n = f.FullName()
 				}
 				out = append(out, destTerm{kind: "other", path: "call " + n})
 			}
+		case *ssa.Parameter:
+			if a, ok := env[x]; ok {
+				walk(a, d+1)
+				return
+			}
+			out = append(out, destTerm{kind: "other", path: "parameter " + x.Name()})
 		case *ssa.BinOp:
 			walk(x.X, d+1)
 			walk(x.Y, d+1)
